@@ -257,6 +257,97 @@ theorem graphIsomorphism_opb (G1 G2 : SimpleG) (α : Assign) :
     (graphIsomorphism G1 G2).toOPB.holds α = (graphIsomorphism G1 G2).holds α :=
   Formula.toOPB_holds α _ (graphIsomorphism_wf G1 G2)
 
+/-! ## T-C02.4 graph automorphism -/
+
+theorem graphAutomorphism_nvars (G : SimpleG) : (graphAutomorphism G).nvars = G.n * G.n := rfl
+
+theorem graphAutomorphism_wf (G : SimpleG) : (graphAutomorphism G).WF :=
+  wf_of_consIn (graphAutomorphism_consIn G)
+
+/-- specification theorem: an isomorphism of `G` with itself that moves some vertex -/
+theorem graphAutomorphism_holds (G : SimpleG) (hG : GoodGraph G) (α : Assign) :
+    (graphAutomorphism G).holds α = true ↔ IsoSpec G G α ∧ ∃ u, V G.n u ∧ ¬ Rel 1 G.n α u u := by
+  have : (graphAutomorphism G).holds α =
+      ((graphIsomorphism G G).holds α && Con.holds α (.clause ((verts G.n).map (fun u => -(mlit 1 G.n u u))))) := by
+    simp [Formula.holds, graphAutomorphism, List.all_append]
+  rw [this, Bool.and_eq_true, graphIsomorphism_holds G G hG hG, notIdentity_holds]
+  unfold V Rel
+  constructor
+  · rintro ⟨h, u, a, b, e⟩; exact ⟨h, u, ⟨a, b⟩, by simp [e]⟩
+  · rintro ⟨h, u, ⟨a, b⟩, e⟩; exact ⟨h, u, a, b, by simpa using e⟩
+
+/-- the satisfying assignments are the encodings of the automorphism tables other than the identity `[1, …, n]` -/
+theorem graphAutomorphism_holds_iff_table (G : SimpleG) (hG : GoodGraph G) (α : Assign) :
+    (graphAutomorphism G).holds α = true ↔
+      ∃ l, (IsIsoTable G G l ∧ l ≠ verts G.n) ∧ EncL 1 G.n G.n α l := by
+  rw [graphAutomorphism_holds G hG, ← graphIsomorphism_holds G G hG hG, graphIsomorphism_holds_iff_table G G hG hG]
+  unfold V Rel
+  constructor
+  · rintro ⟨⟨l, hl, he⟩, u, ⟨a, b⟩, hu⟩
+    refine ⟨l, ⟨hl, ?_⟩, he⟩
+    intro e
+    apply hu
+    rw [he.rel_iff a b a b, e, img_verts a b]
+  · rintro ⟨l, ⟨hl, hne⟩, he⟩
+    refine ⟨⟨l, hl, he⟩, ?_⟩
+    apply Classical.byContradiction
+    intro hno
+    apply hne
+    apply ext_img (by rw [hl.len, verts_length])
+    intro i a b
+    rw [hl.len] at b
+    rw [img_verts a b]
+    apply Classical.byContradiction
+    intro hi
+    exact hno ⟨i, ⟨a, b⟩, fun r => hi ((he.rel_iff a b a b).1 r)⟩
+
+/-- satisfiable iff `G` has an automorphism other than the identity -/
+theorem graphAutomorphism_sat_iff (G : SimpleG) (hG : GoodGraph G) :
+    (∃ α, (graphAutomorphism G).holds α = true) ↔ ∃ l, IsIsoTable G G l ∧ l ≠ verts G.n := by
+  constructor
+  · rintro ⟨α, hα⟩
+    obtain ⟨l, hl, _⟩ := (graphAutomorphism_holds_iff_table G hG α).1 hα
+    exact ⟨l, hl⟩
+  · rintro ⟨l, hl⟩
+    exact ⟨encode 1 G.n G.n l,
+      (graphAutomorphism_holds_iff_table G hG _).2 ⟨l, hl, encode_encL hl.1.len hl.1.rng⟩⟩
+
+/-- one satisfying assignment per non-identical automorphism -/
+theorem graphAutomorphism_count (G : SimpleG) (hG : GoodGraph G) :
+    (∀ l, (IsIsoTable G G l ∧ l ≠ verts G.n) → (graphAutomorphism G).holds (encode 1 G.n G.n l) = true) ∧
+    (∀ α, (graphAutomorphism G).holds α = true →
+        ∃ l, (IsIsoTable G G l ∧ l ≠ verts G.n) ∧ AgreeOn (G.n * G.n) α (encode 1 G.n G.n l)) ∧
+    (∀ l l', (IsIsoTable G G l ∧ l ≠ verts G.n) → (IsIsoTable G G l' ∧ l' ≠ verts G.n) →
+        AgreeOn (G.n * G.n) (encode 1 G.n G.n l) (encode 1 G.n G.n l') → l = l') :=
+  unary_counting (graphAutomorphism G) G.n G.n rfl (fun l => IsIsoTable G G l ∧ l ≠ verts G.n)
+    (graphAutomorphism_holds_iff_table G hG) (fun _ hl => ⟨hl.1.len, hl.1.rng⟩)
+
+theorem graphAutomorphism_models_equiv (G : SimpleG) (hG : GoodGraph G) :
+    Nonempty (Models (graphAutomorphism G) ≃ {l : List Nat // IsIsoTable G G l ∧ l ≠ verts G.n}) :=
+  unary_counting_equiv (graphAutomorphism G) (graphAutomorphism_wf G) G.n G.n rfl
+    (fun l => IsIsoTable G G l ∧ l ≠ verts G.n)
+    (graphAutomorphism_holds_iff_table G hG) (fun _ hl => ⟨hl.1.len, hl.1.rng⟩)
+
+/-- non-vacuity: swapping the end points of the path `1-2-3` -/
+example : IsIsoTable ⟨3, 2, [[], [2], [1, 3], [2]], [(3, 2), (2, 3), (2, 1), (1, 2)]⟩
+    ⟨3, 2, [[], [2], [1, 3], [2]], [(3, 2), (2, 3), (2, 1), (1, 2)]⟩ [3, 2, 1] ∧ [3, 2, 1] ≠ verts 3 := by
+  refine ⟨⟨rfl, by decide, by decide, ?_, ?_⟩, by decide⟩
+  · intro j a b
+    have : j = 1 ∨ j = 2 ∨ j = 3 := by simp only at b; omega
+    rcases this with rfl | rfl | rfl <;> decide
+  · rintro i i' ⟨a, b⟩ ⟨a', b'⟩
+    have h1 : i = 1 ∨ i = 2 ∨ i = 3 := by simp only at b; omega
+    have h2 : i' = 1 ∨ i' = 2 ∨ i' = 3 := by simp only at b'; omega
+    rcases h1 with rfl | rfl | rfl <;> rcases h2 with rfl | rfl | rfl <;> decide
+
+theorem graphAutomorphism_cnf (G : SimpleG) (α : Assign) :
+    (graphAutomorphism G).toCNF.holds α = (graphAutomorphism G).holds α :=
+  Formula.toCNF_holds α _ (graphAutomorphism_wf G)
+
+theorem graphAutomorphism_opb (G : SimpleG) (α : Assign) :
+    (graphAutomorphism G).toOPB.holds α = (graphAutomorphism G).holds α :=
+  Formula.toOPB_holds α _ (graphAutomorphism_wf G)
+
 /-! ## T-C02.5 k-clique (unary encoding) -/
 
 /-- `l = [f 1, …, f k]` lists a `k`-clique of `G`: `k` vertices, pairwise adjacent; strictly increasing
@@ -745,38 +836,6 @@ theorem ramseyAssign_encL {k N : Nat} (c : Bool) {l : List Nat} (hlen : l.length
   (encode_encL (st := 2) hlen hr).congr (fun x h1 _ => by
     have : x ≠ 1 := by omega
     simp [ramseyAssign, this])
-
-/-- a repetition-free list of pairwise (non-)adjacent vertices can be sorted -/
-theorem exists_sorted_mono (G : SimpleG) (hG : GoodGraph G) (C : Bool) {l : List Nat} (hn : l.Nodup)
-    (hm : l.Pairwise (fun a b => adj G a b = C)) :
-    ∃ l' : List Nat, l'.Perm l ∧ l'.Pairwise (· < ·) ∧ l'.Pairwise (fun a b => adj G a b = C) := by
-  refine ⟨l.mergeSort (fun a b => decide (a ≤ b)), List.mergeSort_perm _ _, ?_, ?_⟩
-  · have hle : (l.mergeSort (fun a b => decide (a ≤ b))).Pairwise (fun a b => decide (a ≤ b) = true) :=
-      List.pairwise_mergeSort (by intro a b c; simp; omega) (by intro a b; simp; omega) l
-    have hnd : (l.mergeSort (fun a b => decide (a ≤ b))).Nodup := (List.mergeSort_perm _ _).nodup_iff.2 hn
-    exact sorted_of_le_nodup (hle.imp (by intro a b h; simpa using h)) hnd
-  · exact ((List.mergeSort_perm l _).pairwise_iff (fun {x y} h => by rw [hG.symm]; exact h)).2 hm
-
-theorem pairwise_mono_iff {G : SimpleG} (hG : GoodGraph G) (C : Bool) {l : List Nat} (hn : l.Nodup) :
-    l.Pairwise (fun a b => adj G a b = C) ↔ ∀ u ∈ l, ∀ v ∈ l, u ≠ v → adj G u v = C := by
-  induction l with
-  | nil => simp
-  | cons x xs ih =>
-    rw [List.nodup_cons] at hn
-    rw [List.pairwise_cons, ih hn.2]
-    constructor
-    · rintro ⟨h1, h2⟩ u hu v hv hne
-      rcases List.mem_cons.1 hu with hu | hu
-      · rcases List.mem_cons.1 hv with hv | hv
-        · exact absurd (hu.trans hv.symm) hne
-        · rw [hu]; exact h1 v hv
-      · rcases List.mem_cons.1 hv with hv | hv
-        · rw [hv, hG.symm]; exact h1 u hu
-        · exact h2 u hu v hv hne
-    · intro h
-      refine ⟨fun a ha => h x List.mem_cons_self a (List.mem_cons_of_mem _ ha) ?_,
-        fun u hu v hv hne => h u (List.mem_cons_of_mem _ hu) v (List.mem_cons_of_mem _ hv) hne⟩
-      rintro rfl; exact hn.1 ha
 
 /-- what the code really decides: a `k`-clique or a `k`-independent set — `s` plays no role -/
 theorem ramseyWitnessCore_sat_iff (G : SimpleG) (hG : GoodGraph G) (k : Nat) (sb : Bool) :
